@@ -12,6 +12,7 @@ import (
 
 	"github.com/gorilla/websocket"
 	"go.nanomsg.org/mangos/v3"
+	"go.nanomsg.org/mangos/v3/transport/ws"
 
 	"verifharness/hx"
 	"verifharness/mon"
@@ -127,8 +128,27 @@ func caseWS(c *mon.Case, sp spec) {
 		if err != nil {
 			panic(envError{err})
 		}
+		// a configured listener negotiates like a default one: setting an option of the transport
+		// (either value, before or after Listen) must not change what the upgrade response says
+		optWhen := c.Rand.Intn(3) // 0: leave at default, 1: before Listen, 2: after Listen
+		optVal := c.Rand.Intn(2) == 0
+		if optWhen == 1 {
+			if err := l.SetOption(ws.OptionWebSocketCheckOrigin, optVal); err != nil {
+				c.Violate("ws/option-rejected:"+tag, "SetOption(WEBSOCKET-CHECKORIGIN, %v): %v", optVal, err)
+				return
+			}
+		}
 		if err := l.Listen(); err != nil {
 			panic(envError{err})
+		}
+		if optWhen == 2 {
+			if err := l.SetOption(ws.OptionWebSocketCheckOrigin, optVal); err != nil {
+				c.Violate("ws/option-rejected:"+tag, "SetOption(WEBSOCKET-CHECKORIGIN, %v) after Listen: %v", optVal, err)
+				return
+			}
+		}
+		if optWhen != 0 {
+			c.Count("ws_listeners_with_checkorigin_set", 1)
 		}
 		url := l.Address() // ws://127.0.0.1:port/path
 		_, rest := spcodec.SplitURL(url)
